@@ -420,7 +420,11 @@ def _dowork_enter(tr, rec, task, args):
     machine = args.get('machine')
     mid = _mid(machine)
     preds = args.get('predecessor_allocations') or []
-    cr = rec.get('creator')
+    # the allocation this activation belongs to: the live allocation of the same task on the
+    # same machine (independent of which process object created the generator)
+    cr = next((a for a in tr.alloc_live.get(mid, []) if a.get('task') == task.id), None)
+    if cr is None:
+        cr = rec.get('creator')
     rec.update(task=task.id, machine=mid, preds=[p.id for p in preds],
                t_enter=tr.now(), seq_enter=tr.seq,
                ingest=bool(cr and cr.get('kind') == 'alloc' and cr.get('ingest')),
